@@ -67,7 +67,7 @@ func randDuration(rng *rand.Rand) time.Duration {
 
 // budgetJSON produces one budget as the JSON a user would write (reasons may be absent, [] or a list).
 func budgetJSON(rng *rand.Rand, alwaysActive bool) map[string]any {
-	b := map[string]any{"nodes": []string{"0", "1", "2", "5", "10%", "33%", "50%", "100%", "0%", "1%"}[rng.Intn(10)]}
+	b := map[string]any{"nodes": []string{"0", "1", "2", "5", "10%", "33%", "50%", "100%", "0%", "1%", fmt.Sprintf("%d%%", rng.Intn(101)), fmt.Sprintf("%d%%", rng.Intn(101))}[rng.Intn(12)]}
 	switch rng.Intn(5) {
 	case 0:
 		b["reasons"] = []string{}
@@ -141,8 +141,42 @@ func interestingInstants(rng *rand.Rand, specs []oracle.BudgetSpec, base time.Ti
 	return out
 }
 
-func runDiff(r *mon.Report, idx int, rng *rand.Rand, per int) {
+// runGrid: the percentage arithmetic alone, exhaustively: every percentage 0..100 (partitioned over the differential
+// cases) x every pool size 0..600 plus a few large ones, through the real decoder and Budget.GetAllowedDisruptions.
+func runGrid(r *mon.Report, idx, dc int) {
+	clk := clocktesting.NewFakeClock(time.Date(2030, 1, 1, 0, 0, 0, 0, time.UTC))
+	sizes := []int{1000, 1024, 2500, 5000, 12345, 65536, 99999, 100000}
+	for p := idx; p <= 100; p += dc {
+		js := []map[string]any{{"nodes": fmt.Sprintf("%d%%", p)}}
+		bs, _, _ := decodeBudgets(js)
+		np := &v1.NodePool{Spec: v1.NodePoolSpec{Disruption: v1.Disruption{Budgets: bs}}}
+		check := func(n int) {
+			want := (p*n + 99) / 100
+			got, err := bs[0].GetAllowedDisruptions(clk, n)
+			if err != nil {
+				got = 0
+			}
+			must := np.MustGetAllowedDisruptions(clk, n, v1.DisruptionReasonEmpty)
+			r.Inc("percent_grid_evaluations")
+			if got > want || must > want {
+				r.Violate("percent-budget-allows-more-than-rounded-up-share", fmt.Sprintf("budget %d%% of %d nodes: GetAllowedDisruptions=%d MustGetAllowedDisruptions=%d, the share rounded up is %d", p, n, got, must, want),
+					map[string]any{"budget": js[0], "nodes": n}, map[string]any{"got": got, "must": must, "want": want})
+			} else if got < want {
+				r.Inc("diagnostic_percent_budget_stricter_than_rounded_up_share")
+			}
+		}
+		for n := 0; n <= 600; n++ {
+			check(n)
+		}
+		for _, n := range sizes {
+			check(n)
+		}
+	}
+}
+
+func runDiff(r *mon.Report, idx int, rng *rand.Rand, per int, dc int) {
 	r.Eval()
+	runGrid(r, idx, dc)
 	base := time.Date(2030, time.Month(1+rng.Intn(12)), 1+rng.Intn(28), rng.Intn(24), rng.Intn(60), 0, 0, time.UTC)
 	for k := 0; k < per; k++ {
 		n := 1 + rng.Intn(4)
@@ -152,7 +186,7 @@ func runDiff(r *mon.Report, idx int, rng *rand.Rand, per int) {
 		}
 		bs, specs, raw := decodeBudgets(js)
 		np := &v1.NodePool{Spec: v1.NodePoolSpec{Disruption: v1.Disruption{Budgets: bs}}}
-		nodes := []int{0, 1, 2, 3, 7, 10, 19, 100}[rng.Intn(8)]
+		nodes := []int{0, 1, 2, 3, 7, 10, 19, 100, 25, 50, 64, 250, 1000, rng.Intn(600)}[rng.Intn(14)]
 		for _, now := range interestingInstants(rng, specs, base) {
 			clk := clocktesting.NewFakeClock(now)
 			// per budget: IsActive / GetAllowedDisruptions
@@ -455,7 +489,7 @@ func keys(m map[string]bool) []string {
 func run(r *mon.Report, tier string, idx int, rng *rand.Rand) {
 	dc, per, _ := sizes(tier)
 	if idx < dc {
-		runDiff(r, idx, rng, per)
+		runDiff(r, idx, rng, per, dc)
 		return
 	}
 	runCluster(r, idx, rng)
@@ -464,7 +498,7 @@ func run(r *mon.Report, tier string, idx int, rng *rand.Rand) {
 func init() {
 	reg.Register(&reg.Prop{
 		ID: "C05", Level: "exploration",
-		Rule: "case kinds: (1) differential chunks: budget lists of 1-4 budgets (counts, percents incl. 0%/1%/100%, reasons absent / explicitly empty / subsets, 5-field cron schedules incl. macros, out-of-range fields and never-firing dates, durations 1m-36h) decoded from JSON with the real decoder, evaluated by the real Budget/NodePool methods at instants on and around schedule hits (hit-1s, hit, +0.5s, hit+dur-1ms, hit+dur, …) and compared with the independent cron/budget evaluator; Karpenter allowing MORE than the spec is a violation, stricter is a diagnostic. (2) clusters of 1-3 pools (one-pod-per-node worlds for many nodes, empty / underutilised / drifted / NotReady / uninitialised nodes) with generated budget lists and the clock placed around budget boundaries; 3-6 consecutive reconciles of the real disruption controller with commands left in flight and nodes going NotReady during the validation wait. Non-trivial = a differential chunk, or a round that produced commands and was judged; distinct by chunk / (reason, #commands, #selected, #already disrupting, allowance bucket).",
+		Rule:  "case kinds: (1) differential chunks: budget lists of 1-4 budgets (counts, percents 0%-100%, pool sizes 0-1000, reasons absent / explicitly empty / subsets, 5-field cron schedules incl. macros, out-of-range fields and never-firing dates, durations 1m-36h) decoded from JSON with the real decoder, evaluated by the real Budget/NodePool methods at instants on and around schedule hits (hit-1s, hit, +0.5s, hit+dur-1ms, hit+dur, …) and compared with the independent cron/budget evaluator; Karpenter allowing MORE than the spec is a violation, stricter is a diagnostic; plus the complete grid of percentages 0-100 x pool sizes 0-600 (and eight large sizes) against integer round-up arithmetic. (2) clusters of 1-3 pools (one-pod-per-node worlds for many nodes, empty / underutilised / drifted / NotReady / uninitialised nodes) with generated budget lists and the clock placed around budget boundaries; 3-6 consecutive reconciles of the real disruption controller with commands left in flight and nodes going NotReady during the validation wait. Non-trivial = a differential chunk, or a round that produced commands and was judged; distinct by chunk / (reason, #commands, #selected, #already disrupting, allowance bucket).",
 		Cases: cases, Run: run,
 		MinObserved: map[string]int{"budget_judgements": 30, "pool_reason_evaluations": 50000},
 	})
